@@ -46,12 +46,12 @@ def loopLog : Nat → Streams → Writer → List PopCall
       let s := match s.popPendingOpen with
         | (s, some id) => ((s.qPushFront .pendingSend id).1).tryAssignCapacity id
         | (s, none) => s
-      match Streams.popFrame (2 * s.prio.pendingSend.length + 2) s w.maxFrameSize with
+      match Streams.popFrame (Streams.popFrameFuel s) s w.maxFrameSize with
       | (s', some f) =>
         let (s', w') := s'.bufferOut w f
         let (s', w', _) := s'.reclaimFrame w'
-        { pre := s, maxLen := w.maxFrameSize, fuel := 2 * s.prio.pendingSend.length + 2 } :: loopLog fuel s' w'
-      | (_, none) => [{ pre := s, maxLen := w.maxFrameSize, fuel := 2 * s.prio.pendingSend.length + 2 }]
+        { pre := s, maxLen := w.maxFrameSize, fuel := Streams.popFrameFuel s } :: loopLog fuel s' w'
+      | (_, none) => [{ pre := s, maxLen := w.maxFrameSize, fuel := Streams.popFrameFuel s }]
 
 /-- `pop_frame` charges the connection window exactly the DATA it returns -/
 theorem popFrame_window {s : Streams} (h : SafeInv s) (fuel maxLen : Nat) :
@@ -96,7 +96,7 @@ theorem loopPost_fr (s : Streams) (w : Writer) (f : Streams.OutFrame) : Fr s (lo
 theorem loop_eq (fuel : Nat) (s : Streams) (w : Writer) :
     Streams.prioBufferPendingLoop (fuel + 1) s w =
       if !w.hasCapacity then (s, w, .codecFull)
-      else match Streams.popFrame (2 * (loopPre s).prio.pendingSend.length + 2) (loopPre s) w.maxFrameSize with
+      else match Streams.popFrame (Streams.popFrameFuel (loopPre s)) (loopPre s) w.maxFrameSize with
         | (s', some f) => Streams.prioBufferPendingLoop fuel (loopPost s' w f).1 (loopPost s' w f).2
         | (s', none) => (s', w, .complete) := by
   rw [Streams.prioBufferPendingLoop]
@@ -105,11 +105,11 @@ theorem loop_eq (fuel : Nat) (s : Streams) (w : Writer) :
 theorem loopLog_eq (fuel : Nat) (s : Streams) (w : Writer) :
     loopLog (fuel + 1) s w =
       if !w.hasCapacity then []
-      else match Streams.popFrame (2 * (loopPre s).prio.pendingSend.length + 2) (loopPre s) w.maxFrameSize with
+      else match Streams.popFrame (Streams.popFrameFuel (loopPre s)) (loopPre s) w.maxFrameSize with
         | (s', some f) =>
-          { pre := loopPre s, maxLen := w.maxFrameSize, fuel := 2 * (loopPre s).prio.pendingSend.length + 2 } ::
+          { pre := loopPre s, maxLen := w.maxFrameSize, fuel := Streams.popFrameFuel (loopPre s) } ::
             loopLog fuel (loopPost s' w f).1 (loopPost s' w f).2
-        | (_, none) => [{ pre := loopPre s, maxLen := w.maxFrameSize, fuel := 2 * (loopPre s).prio.pendingSend.length + 2 }] := by
+        | (_, none) => [{ pre := loopPre s, maxLen := w.maxFrameSize, fuel := Streams.popFrameFuel (loopPre s) }] := by
   rw [loopLog]
   rfl
 
@@ -130,8 +130,8 @@ theorem loop_log (fuel : Nat) : ∀ {s : Streams} (w : Writer), SafeInv s →
     rw [loop_eq, loopLog_eq]
     have hpre := loopPre_safe h
     have hw := (loopPre_wfr s).1
-    have hpop := popFrame_window hpre (2 * (loopPre s).prio.pendingSend.length + 2) w.maxFrameSize
-    have hsafe := hpre.popFrame (2 * (loopPre s).prio.pendingSend.length + 2) w.maxFrameSize
+    have hpop := popFrame_window hpre (Streams.popFrameFuel (loopPre s)) w.maxFrameSize
+    have hsafe := hpre.popFrame (Streams.popFrameFuel (loopPre s)) w.maxFrameSize
     split
     · exact ⟨fun c hc => (by cases hc), (by simp [sentIn])⟩
     · split
